@@ -83,7 +83,14 @@ def compile_local_func_def(
             func.cfg,
             func_builder,
         )
-        ctx.worklist[func.def_id, mono_args] = None  # will compile the CFG later
+        if ctx.current_mono_args:
+            # Inside a generic function, the captured variables and the body can
+            # mention the type parameters of the enclosing function. Those are only
+            # resolvable while its monomorphization is in scope, so compile the CFG now
+            cfg = compile_cfg(func.cfg, func_builder, list(func_builder.inputs()), ctx)
+            func_builder.set_outputs(*cfg)
+        else:
+            ctx.worklist[func.def_id, mono_args] = None  # will compile the CFG later
 
     # Finally, load the function into the local data-flow graph
     loaded = dfg.builder.load_function(func_builder, closure_ty)
